@@ -1,4 +1,5 @@
 import DigModel.DotText
+import DigModel.DotOut
 import Lean.Data.Json
 import DigModel.Api
 import DigModel.Dot
@@ -190,17 +191,59 @@ def encDot (g : DGraph) : Json :=
     ("transitive", Json.arr (g.transitive.map encDRes).toArray),
     ("root", Json.arr (g.rootCauses.map encDRes).toArray)]
 
-def encOpRes (same : Bool) (ops : List Op) (rd : OpRes × Option DGraph) : Json :=
-  let r := rd.1
-  Json.mkObj [("v", encVerdict r.v), ("ev", Json.arr (r.ev.map (encEvent same ops)).toArray),
-    ("info", match r.info with | some i => encInfo same i | none => Json.null),
-    ("dot", match rd.2 with | some g => encDot g | none => Json.null)]
+/-- the names package reflect and the runtime supply (K-dottext): `Type.String()` per type id and, per visualize
+    operation, (`Name`, `Package`) of the constructors of `createGraph` in order -/
+structure NamesIn where
+  types   : List (Nat × String) := []
+  ctorsAt : List (Nat × List (String × String)) := []
+
+def decNames (j : Json) : Option NamesIn :=
+  match jfield j "dotNames" with
+  | .ok n =>
+    let types : List (Nat × String) := match jarr n "types" with
+      | .ok a => a.toList.filterMap fun x => match x.getArr? with
+          | .ok #[i, s] => (match i.getNat?, s.getStr? with | .ok i, .ok s => some (i, s) | _, _ => none)
+          | _ => none
+      | .error _ => []
+    let ctorsAt : List (Nat × List (String × String)) := match jfield n "ctorsAt" with
+      | .ok (.obj kvs) => kvs.toList.filterMap fun (k, v) =>
+          match k.toNat?, v.getArr? with
+          | some i, .ok a => some (i, a.toList.filterMap fun x => match x.getArr? with
+              | .ok #[nm, pk] => (match nm.getStr?, pk.getStr? with | .ok nm, .ok pk => some (nm, pk) | _, _ => none)
+              | _ => none)
+          | _, _ => none
+      | _ => []
+    some { types, ctorsAt }
+  | .error _ => none
+
+def NamesIn.at (n : NamesIn) (i : Nat) : DotNames :=
+  { types := n.types, ctors := match n.ctorsAt.find? (·.1 == i) with | some (_, l) => l | none => [] }
+
+def encOpRes (same : Bool) (ops : List Op) (names : Option NamesIn) (ird : Nat × OpRes × Option DGraph) : Json :=
+  let r := ird.2.1
+  let base : List (String × Json) :=
+    [("v", encVerdict r.v), ("ev", Json.arr (r.ev.map (encEvent same ops)).toArray),
+     ("info", match r.info with | some i => encInfo same i | none => Json.null),
+     ("dot", match ird.2.2 with | some g => encDot g | none => Json.null)]
+  match names, ird.2.2 with
+  | some n, some g => Json.mkObj (base ++ [("dotText", Json.str (dotText (n.at ird.1) g))])
+  | _, _ => Json.mkObj base
 
 def isFuel : Verdict → Bool | .fuel => true | _ => false
 
-def encTrace (same : Bool) (ops : List Op) (rs : List (OpRes × Option DGraph)) : Json :=
-  Json.mkObj [("ops", Json.arr (rs.map (encOpRes same ops)).toArray),
+def encTrace (same : Bool) (ops : List Op) (names : Option NamesIn) (rs : List (OpRes × Option DGraph)) : Json :=
+  Json.mkObj [("ops", Json.arr ((indexed 0 rs).map (encOpRes same ops names)).toArray),
     ("fatal", if rs.any (fun r => isFuel r.1.v) then Json.str "fuel" else Json.null)]
+
+/-- K-dottext request: the DOT lexer and parser of `DotSyntax.lean` on a text the library wrote -/
+def runDotParse (j : Json) : R Json := do
+  let text ← jstr j "text"
+  match DotSyntax.lexDot text.toList with
+  | none => pure (Json.mkObj [("lex", false), ("parse", false), ("stmts", jn 0)])
+  | some ts =>
+    match DotSyntax.parseDot ts with
+    | none => pure (Json.mkObj [("lex", true), ("parse", false), ("stmts", jn 0)])
+    | some ss => pure (Json.mkObj [("lex", true), ("parse", true), ("stmts", jn ss.length)])
 
 /-- K-graph request -/
 def runGraph (j : Json) : R Json := do
@@ -255,9 +298,10 @@ def handleLine (line : String) : String :=
     | .ok "graph" => (match runGraph j with | .ok r => r.compress | .error e => (Json.mkObj [("error", Json.str e)]).compress)
     | .ok "tag" => (match runTag j with | .ok r => r.compress | .error e => (Json.mkObj [("error", Json.str e)]).compress)
     | .ok "label" => (match runLabel j with | .ok r => r.compress | .error e => (Json.mkObj [("error", Json.str e)]).compress)
+    | .ok "dotparse" => (match runDotParse j with | .ok r => r.compress | .error e => (Json.mkObj [("error", Json.str e)]).compress)
     | _ =>
       match decProgram j with
       | .error e => (Json.mkObj [("error", Json.str e)]).compress
-      | .ok p => (encTrace p.sameIds p.ops (runProgramV p).2).compress
+      | .ok p => (encTrace p.sameIds p.ops (decNames j) (runProgramV p).2).compress
 
 end Dig
